@@ -174,6 +174,9 @@ func (this *Dataset) Insert(ctx context.Context, id uuid.UUID, value math.Vector
 	if err := this.checkDimension(&value); err != nil {
 		return err
 	}
+	if err := metadata.Validate(); err != nil {
+		return err
+	}
 
 	partition := this.getPartitionForId(id)
 	if !partition.isOnNode(this.clusterConn.Id()) {
@@ -196,6 +199,9 @@ func (this *Dataset) Insert(ctx context.Context, id uuid.UUID, value math.Vector
 
 func (this *Dataset) Update(ctx context.Context, id uuid.UUID, value math.Vector, metadata index.Metadata) error {
 	if err := this.checkDimension(&value); err != nil {
+		return err
+	}
+	if err := metadata.Validate(); err != nil {
 		return err
 	}
 
@@ -247,6 +253,8 @@ func (this *Dataset) BatchInsert(ctx context.Context, items []*pb.BatchItem) (ma
 		value := math.Vector(item.GetValue())
 		if err := this.checkDimension(&value); err != nil {
 			errors[uuid.FromBytesOrNil(item.GetId())] = err
+		} else if err := index.Metadata(item.GetMetadata()).Validate(); err != nil {
+			errors[uuid.FromBytesOrNil(item.GetId())] = err
 		} else {
 			checkedItems = append(checkedItems, item)
 		}
@@ -289,6 +297,8 @@ func (this *Dataset) BatchUpdate(ctx context.Context, items []*pb.BatchItem) (ma
 	for _, item := range items {
 		value := math.Vector(item.GetValue())
 		if err := this.checkDimension(&value); err != nil {
+			errors[uuid.FromBytesOrNil(item.GetId())] = err
+		} else if err := index.Metadata(item.GetMetadata()).Validate(); err != nil {
 			errors[uuid.FromBytesOrNil(item.GetId())] = err
 		} else {
 			checkedItems = append(checkedItems, item)
